@@ -102,7 +102,7 @@ Definition can_ep_flag (b : board) (m : N) : bool :=
 Lemma make_ep z b m :
   ep (fst (make z b m)) = if can_ep_flag b m then (mv_from m + mv_to m) / 2 else 0.
 Proof.
-  unfold make. cbv zeta. fold (can_ep_flag b m).
+  unfold make, make_l. cbv zeta. fold (can_ep_flag b m).
   destruct (remove_piece z _ (flip (stm b)) _ _) as [b1 h1].
   destruct (remove_piece z b1 _ _ _) as [b2 h2].
   destruct (add_piece z b2 _ _ _) as [b3 h3].
@@ -119,7 +119,7 @@ Qed.
 Lemma make_castles z b m :
   castles (fst (make z b m)) = bxor (castles b) (bxor (castles b) (new_castles b m)).
 Proof.
-  unfold make. cbv zeta.
+  unfold make, make_l. cbv zeta.
   match goal with |- context [remove_piece z ?x (flip (stm b)) ?p ?s] =>
     pose proof (rm_castles z x (flip (stm b)) p s) as E1;
     destruct (remove_piece z x (flip (stm b)) p s) as [b1 h1] end.
